@@ -807,7 +807,7 @@ rt_prop("C05", ["hosts", "law"],
         "is checked on every run by executing each program under direct / Core / bincode Bridge / JSON Bridge hosts and under random "
         "wrapper stacks and comparing per-step multisets pairwise on the implementation (oracle key host-dependent).",
         goals=["host_invariance_goal"])
-rt_prop("C06", ["cancel", "task"],
+rt_prop("C06", ["cancel", "task", "bcancel"],
         "Proof (Props/C06.lean): an aborted task is reported completed without being polled and nothing changes (task_abort_final); "
         "an aborted command drops all tasks without calling the task layer at all and is done as soon as its queues are empty "
         "(abort_drops_all_tasks, abort_polls_nothing, abort_done); a late resolve of cancelled work is rejected (stream) or accepted "
